@@ -105,10 +105,75 @@ def _reads_option(c: Ctx, f: Func, e: ast.AST, key: str, at: ast.AST, rd: Reachi
     return False
 
 
-def rule_nest(c: Ctx) -> RuleResult:
+def cap_edges(c: Ctx, g: Func, depth: int = 0) -> list[tuple[Node, str, str]]:
+    """(test node, passing edge label, description) of g: edges that can only be taken while the nesting level is below
+    the maxNesting option.  Either a direct comparison of `<state>.level` with a value read from the option, or a call to
+    a boolean helper whose `return False` / `return True` is itself reachable only through such an edge."""
+    from ..syn import cmp_oriented
     from .switch_rules import _edge_dominated
+    cfg = c.cfg(g)
+    rd = Reaching(cfg)
+    out: list[tuple[Node, str, str]] = []
+    for n in cfg.nodes:
+        if n.kind != "test" or n.ast is None:
+            continue
+        co = cmp_oriented(n.ast, lambda e: ".level" in U(e) or U(e) == "level")
+        if co is not None and _reads_option_ip(c, g, co[2], "maxNesting", n.ast, rd):
+            lab = {ast.Lt: "T", ast.LtE: "T", ast.Gt: "F", ast.GtE: "F"}.get(co[1])
+            if lab:
+                out.append((n, lab, U(n.ast)))
+            continue
+        call = n.ast.operand if isinstance(n.ast, ast.UnaryOp) and isinstance(n.ast.op, ast.Not) else n.ast
+        if isinstance(call, ast.Call) and depth < 2:
+            cs = c.cg.site_of.get(call)
+            if cs is not None and len(cs.callees) == 1 and cs.kind in ("direct", "method"):
+                h = cs.callees[0]
+                hedges = cap_edges(c, h, depth + 1)
+                if not hedges:
+                    continue
+                hcfg = c.cfg(h)
+                for val, lab in ((False, "F"), (True, "T")):
+                    rets = [x for x in hcfg.nodes if x.kind == "stmt" and isinstance(x.ast, ast.Return) and isinstance(x.ast.value, ast.Constant)
+                            and x.ast.value.value is val]
+                    if rets and all(any(_edge_dominated(hcfg, t, l, x) for (t, l, _) in hedges) for x in rets):
+                        out.append((n, lab, f"{U(call.func)}(...) is {val} only while {hedges[0][2]} passes"))
+    return out
+
+
+def _reads_option_ip(c: Ctx, g: Func, e: ast.AST, key: str, at: ast.AST, rd: Reaching) -> bool:
+    """_reads_option, following a parameter to the actual arguments of g's callers."""
+    if _reads_option(c, g, e, key, at, rd):
+        return True
+    if isinstance(e, ast.Name) and e.id in [a.arg for a in g.node.args.posonlyargs + g.node.args.args]:
+        ds = rd.at_ast(at, e.id)
+        if ds and all(d.kind == "param" for d in ds):
+            from ..interproc import actuals, reaching
+            acts = actuals(c, g, e.id)
+            return bool(acts) and all(_reads_option(c, caller, a, key, cs.node, reaching(c, caller)) for (caller, a, cs) in acts)
+    return False
+
+
+def guarded_by_cap(c: Ctx, g: Func, node: ast.AST, depth: int = 0) -> str:
+    """'' if the AST node (a call) in g may execute with the nesting level at / above the cap, else how it is guarded."""
+    from .switch_rules import _edge_dominated
+    cfg = c.cfg(g)
+    edges = cap_edges(c, g)
+    owners = cfg.owner(node)
+    if edges and owners and all(any(_edge_dominated(cfg, t, lab, dn) for (t, lab, _) in edges) for dn in owners):
+        return f"reachable only through `{edges[0][2]}` passing"
+    if depth < 2:
+        callers = [cs for cs in c.cg.callers.get(g, []) if not cs.kind.startswith("dispatch:")]
+        if callers and g.name not in ("tokenize", "parse", "skipToken"):
+            hows = [guarded_by_cap(c, cs.caller, cs.node, depth + 1) for cs in callers]
+            if all(hows):
+                return f"every call of {g.short} is guarded: " + hows[0]
+    return ""
+
+
+def rule_nest(c: Ctx) -> RuleResult:
     r = RuleResult("NEST", "every rule-dispatch site that can recurse is reachable only through the passing edge of a comparison of the "
-                           "nesting level with a value read from option maxNesting")
+                           "nesting level with a value read from option maxNesting (in the dispatcher itself, in a boolean helper it "
+                           "tests, or at every call of the helper that contains the dispatch)")
     n_sites = 0
     for g in sorted(c.cg.api_phase(), key=lambda x: x.qual):
         for cs in c.cg.sites.get(g, []):
@@ -117,21 +182,10 @@ def rule_nest(c: Ctx) -> RuleResult:
             call = cs.node
             n_sites += 1
             r.functions += 1
-            st = U(call.args[0]) if call.args else "state"
-            cfg = c.cfg(g)
-            rd = Reaching(cfg)
-            caps: list[tuple[Node, str]] = []
-            for n in cfg.nodes:
-                from ..syn import cmp_oriented
-                co = cmp_oriented(n.ast, lambda e: f"{st}.level" in U(e)) if n.kind == "test" else None
-                if co is not None and _reads_option(c, g, co[2], "maxNesting", n.ast, rd):
-                    lab = {ast.Lt: "T", ast.LtE: "T", ast.Gt: "F", ast.GtE: "F"}.get(co[1])
-                    if lab:
-                        caps.append((n, lab))
-            ok = bool(caps) and all(any(_edge_dominated(cfg, t, lab, dn) for (t, lab) in caps) for dn in cfg.owner(call))
+            how = guarded_by_cap(c, g, call)
             key = f"{g.short}|{cs.kind}"
-            r.add(key, c.where(g, call), g.short, U(call), "discharged" if ok else "violation",
-                  f"reachable only through `{U(caps[0][0].ast)}` passing (the right-hand side is read from option maxNesting)" if ok else
+            r.add(key, c.where(g, call), g.short, U(call), "discharged" if how else "violation",
+                  how + " (the right-hand side is read from option maxNesting)" if how else
                   "the dispatch is not guarded by a comparison of the nesting level with the maxNesting option: deeply nested input "
                   "recurses until RecursionError")
     if n_sites < 3:
